@@ -40,7 +40,7 @@ def check(run: Run) -> None:
     # ---- Q1 / Q3: solve_for_vector evaluated as a whole (whatever the shape of its code)
     _solve_for_vector(run, mod, f)
     # ---- Q2
-    a = Fn(w, MOD, "apply")
+    a = Fn(w, MOD, "apply", inline=True)
     for r in a.cfg.returns():
         run.ob("Q2", "apply")
         v = r.ast.value
